@@ -164,12 +164,14 @@ class _Lim:
 
 
 def _ohe_finding(case):
+    """key of the LITERAL corner classes; bfloat16 / NUL only when the same case with float32 / chr(1) passes"""
     if case['dtype'] == 'bfloat16':
-        return 'characters-bfloat16-raises'
+        return 'characters-bfloat16-raises' if not check_ohe(dict(case, dtype='float32')) else None
     if case['s'] == '':
         return 'characters-empty-sequence-raises'
     if '\x00' in case['alphabet']:
-        return 'characters-nul-letter-lost'
+        ctrl = dict(case, alphabet=[c.replace('\x00', '\x01') for c in case['alphabet']], s=case['s'].replace('\x00', '\x01'))
+        return 'characters-nul-letter-lost' if not check_ohe(ctrl) else None
     return None
 
 
@@ -184,17 +186,17 @@ def _run_ohe_literal(rep, lim):
                 case = {'kind': 'ohe', 'alphabet': alphabet, 'ignore': ignore, 's': '', 'dtype': _dn(dt)}
                 v = check_ohe(case)
                 rep.case(('ohe-empty', tuple(alphabet), _dn(dt)), nontrivial=False, section='ohe-literal-edges')
-                lim.report(v, case, _ohe_finding(case))
+                lim.report(v, case, _ohe_finding(case) if v else None)
         for s in ['A', 'ACGT', 'NACGTN', 'GATTACA', 'TTTT']:
             case = {'kind': 'ohe', 'alphabet': ['A', 'C', 'G', 'T'], 'ignore': ['N'], 's': s, 'dtype': 'bfloat16'}
             v = check_ohe(case)
             rep.case(('ohe-bf16', s), section='ohe-literal-edges')
-            lim.report(v, case, _ohe_finding(case))
+            lim.report(v, case, _ohe_finding(case) if v else None)
         for s in ['\x00', 'B\x00B', '\x00\x00B']:
             case = {'kind': 'ohe', 'alphabet': ['\x00', 'B'], 'ignore': [], 's': s, 'dtype': 'int8'}
             v = check_ohe(case)
             rep.case(('ohe-nul', s), section='ohe-literal-edges')
-            lim.report(v, case, _ohe_finding(case))
+            lim.report(v, case, _ohe_finding(case) if v else None)
 
 
 
@@ -227,7 +229,7 @@ def _run_ohe(rep, lim):
                     v = check_ohe(case)
                     rep.case(('ohe', tuple(alphabet), tuple(ignore), s, _dn(dt)), nontrivial=L > 1,
                              sample=case, section='ohe-roundtrip')
-                    lim.report(v, case, _ohe_finding(case))
+                    lim.report(v, case, _ohe_finding(case) if v else None)
     rep.mark_exhaustive('one_hot_encode/characters round trip on every string of the listed lengths for %d (alphabet, ignore) pairs' % len(configs))
     # rejection
     outsiders_extra = ['é', '中']
@@ -260,7 +262,7 @@ def _run_ohe(rep, lim):
         case = {'kind': 'ohe', 'alphabet': alphabet, 'ignore': ignore, 's': s, 'dtype': _dn(DTYPES[k % len(DTYPES)])}
         v = check_ohe(case)
         rep.case(('ohe-long', k), section='ohe-long')
-        lim.report([x[:300] for x in v], case, _ohe_finding(case))
+        lim.report([x[:300] for x in v], case, _ohe_finding(case) if v else None)
 # ----------------------------------------------------------------------------------------------
 # reverse_complement
 # ----------------------------------------------------------------------------------------------
@@ -457,7 +459,8 @@ def _report_chunk(rep, lim, case, v):
             if _n_chunks(L, case['size'], case['overlap']) == 1:
                 sub = dict(case, lengths=[L])
                 sv = check_chunk(sub)
-                if sv:
+                # control: the same single sequence cut without overlap (still one chunk) must pass
+                if sv and not check_chunk(dict(sub, overlap=0)):
                     lim.report(sv, sub, 'unchunk-single-chunk-overlap-drops-edges')
                     explained = True
                 break
